@@ -399,13 +399,89 @@ func min(a, b int) int {
 	return b
 }
 
-func TestProp(t *testing.T)    { prop.Check(t) }
-func TestRegress(t *testing.T) { prop.Regress(t) }
+// ---- overlap: content stays with its own message when sessions overlap ----
+
+// OCase: several sessions send several messages back to back; Sizes[s][k] is the body size
+// of the k-th message of session s. Bodies are lines that name their session and message.
+type OCase struct {
+	Backend string  `json:"backend"`
+	Sizes   [][]int `json:"sizes"`
+	Same    bool    `json:"same_mailbox"` // every message goes to one mailbox (one hash lock in the file store)
+}
+
+func overlapBody(si, ti, n int) []byte {
+	line := []byte(fmt.Sprintf("S%02dT%02d.abcdefghijklmnopqrstuvwxyz0123456789.\r\n", si, ti))
+	return bytes.Repeat(line, n/len(line)+1)[:n/len(line)*len(line)]
+}
+
+var propOverlap = hx.Prop[OCase]{
+	ID: pid, Name: "overlap",
+	Rule: "2-8 SMTP sessions run freely at once, each sending 2-5 messages of 0.1-200 KB back to back (every body line names its session and message) to " +
+		"one shared mailbox or to a mailbox per session, mem or file store; afterwards every acknowledged message must be stored with exactly its own " +
+		"transmitted content, sender and size (matched by sender, compared as in the main check); non-trivial = at least 3 sessions and a message " +
+		">= 20 KB; distinct = distinct case JSON",
+	Quick: 40, Thorough: 400,
+	Gen: func(t *rapid.T) OCase {
+		sz := rapid.SampledFrom([]int{100, 1000, 5000, 20000, 70000, 200000})
+		return OCase{Backend: rapid.SampledFrom([]string{"file", "file", "mem"}).Draw(t, "backend"),
+			Sizes: rapid.SliceOfN(rapid.SliceOfN(sz, 2, 5), 2, 8).Draw(t, "sizes"), Same: rapid.Bool().Draw(t, "same")}
+	},
+	Run: func(c OCase) *hx.Outcome {
+		o := &hx.Outcome{}
+		cfg := hx.DefaultCfg()
+		cfg.Backend = c.Backend
+		cfg.MaxMessageBytes = 64 << 20
+		cfg.NoHTTP = true
+		w, err := hx.NewWorld(cfg)
+		if err != nil {
+			o.Failf(pid+":harness", "world: %v", err)
+			return o
+		}
+		defer w.Close()
+		var sessions [][]hx.PTxn
+		big := false
+		for si, l := range c.Sizes {
+			var txns []hx.PTxn
+			for ti, n := range l {
+				rc := fmt.Sprintf("o%d@a.test", si)
+				if c.Same {
+					rc = "shared@a.test"
+				}
+				txns = append(txns, hx.PTxn{Rcpts: []string{rc}, Body: overlapBody(si, ti, n)})
+				if n >= 20000 {
+					big = true
+				}
+			}
+			sessions = append(sessions, txns)
+		}
+		acked, problems := hx.RunParallel(w, sessions, false)
+		for _, p := range problems {
+			o.Failf(pid+":overlap-session", "%s", p)
+		}
+		if o.Failed() {
+			return o
+		}
+		model := hx.NewEModel()
+		for _, e := range acked {
+			model.Add(e)
+		}
+		hx.SortForUnordered(w.Store, model)
+		if err := hx.CmpE2E(w.Store, model, nil); err != nil {
+			o.Failf(pid+":overlap-content", "[%s, %d sessions, one mailbox=%v] %v", c.Backend, len(c.Sizes), c.Same, err)
+		}
+		o.NonTrivial = len(c.Sizes) >= 3 && big
+		o.Class("backend " + c.Backend)
+		return o
+	},
+}
+
+func TestProp(t *testing.T)    { prop.Check(t); propOverlap.Check(t) }
+func TestRegress(t *testing.T) { prop.Regress(t); propOverlap.Regress(t) }
 func TestReplay(t *testing.T) {
 	if *hx.ReplayPath == "" {
 		t.Skip("no -replay")
 	}
-	if !prop.Replay(t, *hx.ReplayPath) {
+	if !prop.Replay(t, *hx.ReplayPath) && !propOverlap.Replay(t, *hx.ReplayPath) {
 		t.Fatalf("no prop matches %s", *hx.ReplayPath)
 	}
 }
